@@ -199,6 +199,13 @@ impl PropertyValue {
         self.write(writer, codepage)
     }
 
+    pub(crate) fn verif_read<R: Read>(
+        reader: R,
+        codepage: CodePage,
+    ) -> io::Result<PropertyValue> {
+        PropertyValue::read(reader, codepage)
+    }
+
     pub(crate) fn verif_size_including_padding(
         &self,
         codepage: CodePage,
